@@ -6,7 +6,7 @@ from lv import core, noise, parsers, syntaxgen
 
 ID = 'C06'
 BUDGET = {'quick': 2400, 'thorough': 60000}     # generated programs; ~4 texts each
-WALL = {'quick': 170, 'thorough': 1500}
+WALL = {'quick': 600, 'thorough': 3600}
 RULE = ('programs of the syntactic grammar generator lv/syntaxgen.py (every statement, '
         'literal, operator and denotation form of docs/syntax.md; no imports yet); each '
         'program yields 4 texts: base print, a layout variant (whitespace / comments at '
@@ -90,7 +90,7 @@ def verdict(text):
     return fails, info
 
 
-def make_texts(rng, col=None):
+def make_texts(rng, salt=0):
     """one generated program -> list of case dicts (kind, pieces, corruption, feats)."""
     stmts, strings, feats, excl = syntaxgen.generate(rng)
     base = noise.render(stmts, trailing=rng.random() < 0.7)
@@ -105,7 +105,8 @@ def make_texts(rng, col=None):
              {'kind': 'noisy', 'pieces': rendered_pieces(noisy), 'corruption': None,
               'noise': {k: v for k, v in noisy.stats.items()}}]
     for src, r in (('base', base), ('noisy', noisy)):
-        c = noise.pick_corruption(r.cells, rng)
+        c = noise.pick_corruption(r.cells, rng, salt)
+        salt += 7
         if c is None:
             continue
         ex = noise.excluded_class(r.cells, c)
@@ -122,8 +123,11 @@ def make_texts(rng, col=None):
 def shard(ctx, col):
     parsers.setup()
 
+    counter = [0]
+
     def one(rng):
-        cases, feats, excluded = make_texts(rng)
+        counter[0] += 1
+        cases, feats, excluded = make_texts(rng, counter[0])
         for k, v in excluded.items():
             col.excluded[k] += v
         accepted = {}
